@@ -28,6 +28,7 @@ type Obligation struct {
 	Res     SolverRes
 	Status  string // proved | refuted | undecided | trivial
 	Bounded string
+	Replay  *ReplayInfo
 }
 
 type namedTerm struct {
